@@ -28,12 +28,15 @@ type VerifBlobDesc struct {
 	MergeSets  []blob.Ref
 	FileName   string
 	Search     any // a search share: "search" set, no target
+	Permanode  blob.Ref
+	Attribute  string
+	Value      string
 }
 
 func VerifNewBlob(br blob.Ref, d VerifBlobDesc) *Blob {
 	ss := &superset{
 		Type: CamliType(d.Type), ClaimType: ClaimType(d.ClaimType), AuthType: d.AuthType, Target: d.Target, Transitive: d.Transitive,
-		Expires: types.Time3339(d.Expires), Parts: d.Parts, Entries: d.Entries, Members: d.Members, MergeSets: d.MergeSets, FileName: d.FileName, Search: d.Search,
+		Expires: types.Time3339(d.Expires), Parts: d.Parts, Entries: d.Entries, Members: d.Members, MergeSets: d.MergeSets, FileName: d.FileName, Search: d.Search, Permanode: d.Permanode, Attribute: d.Attribute, Value: d.Value,
 	}
 	ss.BlobRef = br
 	if d.Signed {
